@@ -321,6 +321,10 @@ Definition tm_prune (trusting now : N) (s : cstore) : outcome cstore :=
               end
   end.
 
+(** the consensus state update() builds from a Tendermint header is a Tendermint consensus state *)
+Definition as_tm (k : cons_state) : cons_state :=
+  {| cs_type := TM; cs_ts := cs_ts k; cs_root := cs_root k; cs_dg := cs_dg k |}.
+
 Definition tm_update (now : N) (latest : height) (trusting drift delay : N) (rest : bytes)
            (trusted h : height) (cns : cons_state) (hv : bool) (s : cstore)
   : outcome (client_state * option cons_state * cstore) :=
@@ -334,7 +338,7 @@ Definition tm_update (now : N) (latest : height) (trusting drift delay : N) (res
       then Err else
       s1 <- tm_prune trusting now s ;;
       let latest' := if h_lt latest h then h else latest in
-      Ok (ClTm latest' trusting drift delay rest, Some cns, set_tm_meta now h s1)
+      Ok (ClTm latest' trusting drift delay rest, Some (as_tm cns), set_tm_meta now h s1)
   end.
 
 (** bsc update.go + header.go verifySeal (store part) *)
